@@ -23,6 +23,7 @@ import (
 	"testing"
 	"time"
 
+	tls "github.com/refraction-networking/utls"
 	"pgregory.net/rapid"
 
 	quic "github.com/refraction-networking/uquic"
@@ -61,6 +62,11 @@ type Case struct {
 	Blackout  [][2]int     `json:"blackouts_ms,omitempty"`
 	Seed      uint64       `json:"seed"`
 	WinKB     int          `json:"win_kb,omitempty"` // >0: small flow-control windows on both endpoints (initial = WinKB, max = 4x)
+	// Early (plain and unil clients only; a spec-driven client never gets 0-RTT keys): the client first makes a fault-free
+	// preliminary connection to the same server to obtain a session ticket, closes it, and the measured connection is
+	// made with DialEarly: the client's streams are opened and written (and its datagrams sent) before the handshake
+	// has completed. Faults, loss window and blackouts apply to the measured connection only.
+	Early bool `json:"early,omitempty"`
 }
 
 // GenUnit is the unit that generator exclusions are counted under.
@@ -163,7 +169,62 @@ func GenCase(t *rapid.T) Case {
 		from := rapid.IntRange(0, 3000).Draw(t, "bo_from")
 		c.Blackout = [][2]int{{from, from + rapid.IntRange(10, c.IdleMs/3).Draw(t, "bo_len")}}
 	}
+	// 0-RTT dimension. These draws come last so that everything above keeps its meaning for a given rapid bit stream.
+	if !NoEarly && (c.Client == "plain" || c.Client == "unil") && rapid.IntRange(0, 5).Draw(t, "early") == 0 {
+		c.Early = true
+		// bias towards the interesting corner: more early data than the initial congestion window (32 packets) ...
+		if rapid.IntRange(0, 2).Draw(t, "early_big") > 0 {
+			s := &c.Streams[rapid.IntRange(0, len(c.Streams)-1).Draw(t, "early_stream")]
+			s.Init = "c"
+			s.Size = rapid.SampledFrom([]int{45000, 64000, 100000, 192000, 250000}).Draw(t, "early_size")
+			s.Chunks = []int{rapid.SampledFrom([]int{1400, 16000, 64000}).Draw(t, "early_chunk")}
+			s.CancelAt = 0
+			c.WinKB = 0
+		}
+		// ... while (part of) the server's first flight is lost
+		if rapid.IntRange(0, 2).Draw(t, "early_dropflight") > 0 {
+			var fl []sim.Fault
+			for i := 0; i < 3; i++ {
+				if rapid.Bool().Draw(t, "early_drop") {
+					fl = append(fl, sim.Fault{Dir: "s2c", Nth: i, Kind: "drop"})
+				}
+			}
+			c.Faults = append(fl, c.Faults...)
+		}
+	}
 	return c
+}
+
+// NoEarly makes GenCase never draw the 0-RTT dimension.
+var NoEarly bool
+
+// sessionCache signals every session ticket the client stores and hands the resumption PSK to the wire observer.
+type sessionCache struct {
+	inner tls.ClientSessionCache
+	puts  chan struct{}
+	obs   func() *sim.Observer
+}
+
+func (sc *sessionCache) Get(k string) (*tls.ClientSessionState, bool) {
+	cs, ok := sc.inner.Get(k)
+	if o := sc.obs(); ok && o != nil {
+		if _, st, err := cs.ResumptionState(); err == nil && st != nil {
+			if b, err := st.Bytes(); err == nil {
+				if psk, ok := sim.PSKFromSessionState(b); ok {
+					o.AddResumptionPSK(psk)
+				}
+			}
+		}
+	}
+	return cs, ok
+}
+
+func (sc *sessionCache) Put(k string, s *tls.ClientSessionState) {
+	sc.inner.Put(k, s)
+	select {
+	case sc.puts <- struct{}{}:
+	default:
+	}
 }
 
 type streamResult struct {
@@ -319,8 +380,15 @@ func runCase(c Case, u *vf.Unit, trace *any) *vf.Verdict {
 	for _, b := range c.Blackout {
 		bos = append(bos, [2]time.Duration{time.Duration(b[0]) * time.Millisecond, time.Duration(b[1]) * time.Millisecond})
 	}
-	w := sim.NewWorld(time.Duration(c.RTTms)*time.Millisecond, c.Faults, c.Loss, bos)
+	var w *sim.World
+	if c.Early {
+		// the fault model is armed once the preliminary connection is over (Router.ArmAll below)
+		w = sim.NewWorld(time.Duration(c.RTTms)*time.Millisecond, nil, nil, nil)
+	} else {
+		w = sim.NewWorld(time.Duration(c.RTTms)*time.Millisecond, c.Faults, c.Loss, bos)
+	}
 	defer w.Close()
+	mark := 0 // log position of the first datagram of the measured connection
 	if c.Observed == "log" || c.Observed == "both" {
 		defer sim.DebugLogging()()
 	}
@@ -328,13 +396,15 @@ func runCase(c Case, u *vf.Unit, trace *any) *vf.Verdict {
 		u.Class("observability-on")
 	}
 	wire := len(curOpt.WirePrefixes) > 0
-	observed := wire || vf.ReplayMode() // replays decode the wire so that a verdict can say what the packets carried
+	// replays decode the wire so that a verdict can say what the packets carried; 0-RTT cases always do, because a
+	// handshake that stalls is classified by what the packets carried (earlyStallKind)
+	observed := wire || vf.ReplayMode() || c.Early
 	if observed {
 		w.Observe()
 	}
 	var aliveUntil time.Duration // set when both connections were alive at the end of the transfers
 	wireVerdict := func() *vf.Verdict {
-		for _, f := range w.WireCheck(sim.WireOptions{AliveUntil: aliveUntil}) {
+		for _, f := range w.WireCheck(sim.WireOptions{AliveUntil: aliveUntil, FromSeq: mark, ZeroRTTSameLimits: c.Early}) {
 			for _, pre := range curOpt.WirePrefixes {
 				if strings.HasPrefix(f.Sig, pre) {
 					return vf.Bad(f.Sig, "%s", f.Detail)
@@ -368,6 +438,7 @@ func runCase(c Case, u *vf.Unit, trace *any) *vf.Verdict {
 	defer st.Close()
 	sconf := conf()
 	sconf.Versions = []quic.Version{quic.Version1, quic.Version2}
+	sconf.Allow0RTT = c.Early
 	ln, err := st.Listen(sim.ServerTLS(false, w.ServerKeys), sconf)
 	if err != nil {
 		return vf.Bad("C01/harness/listen", "%v", err)
@@ -387,20 +458,23 @@ func runCase(c Case, u *vf.Unit, trace *any) *vf.Verdict {
 		rev[i] = pattern(c.Seed, 2*i+1, s.RevSize)
 	}
 
-	type dialRes struct {
-		conn *quic.Conn
-		err  error
-		at   time.Duration
+	ctls := sim.ClientTLS(w.ClientKeys)
+	cache := &sessionCache{inner: tls.NewLRUClientSessionCache(4), puts: make(chan struct{}, 8), obs: func() *sim.Observer { return w.Obs }}
+	if c.Early {
+		ctls.ClientSessionCache = cache
 	}
-	dialCh := make(chan dialRes, 1)
-	go func() {
-		var conn *quic.Conn
-		var err error
+	dial := func(early bool) (*quic.Conn, error) {
 		switch {
 		case c.Client == "plain":
-			conn, err = ct.Dial(ctx, sim.ServerAddr, sim.ClientTLS(w.ClientKeys), conf())
+			if early {
+				return ct.DialEarly(ctx, sim.ServerAddr, ctls, conf())
+			}
+			return ct.Dial(ctx, sim.ServerAddr, ctls, conf())
 		case c.Client == "unil":
-			conn, err = (&quic.UTransport{Transport: ct}).Dial(ctx, sim.ServerAddr, sim.ClientTLS(w.ClientKeys), conf())
+			if early {
+				return (&quic.UTransport{Transport: ct}).DialEarly(ctx, sim.ServerAddr, ctls, conf())
+			}
+			return (&quic.UTransport{Transport: ct}).Dial(ctx, sim.ServerAddr, ctls, conf())
 		default:
 			d := specgen.Desc{Base: strings.TrimPrefix(c.Client, "spec:")}
 			if len(c.ClientWin) == 3 {
@@ -410,17 +484,120 @@ func runCase(c Case, u *vf.Unit, trace *any) *vf.Verdict {
 			}
 			spec, e := d.Build()
 			if e != nil {
-				dialCh <- dialRes{err: e}
-				return
+				return nil, e
 			}
-			conn, err = (&quic.UTransport{Transport: ct, QUICSpec: spec}).Dial(ctx, sim.ServerAddr, sim.ClientTLS(w.ClientKeys), conf())
+			return (&quic.UTransport{Transport: ct, QUICSpec: spec}).Dial(ctx, sim.ServerAddr, ctls, conf())
 		}
-		dialCh <- dialRes{conn, err, w.Router.Now()}
-	}()
+	}
 	type accRes struct {
 		conn *quic.Conn
 		err  error
 	}
+	gotTicket := false
+	if c.Early {
+		// ---- preliminary connection (fault-free): session ticket for the measured one
+		u.Class("early")
+		pacc := make(chan accRes, 1)
+		go func() {
+			conn, err := ln.Accept(ctx)
+			pacc <- accRes{conn, err}
+		}()
+		pconn, err := dial(false)
+		if err != nil {
+			cancel()
+			<-pacc
+			return vf.Bad("C01/harness/early-preliminary", "the preliminary connection (no faults) failed: %v", err)
+		}
+		select {
+		case <-cache.puts:
+			gotTicket = true
+		case <-time.After(3 * time.Second):
+		}
+		par := <-pacc
+		pconn.CloseWithError(0, "")
+		time.Sleep(time.Duration(c.RTTms)*time.Millisecond + 100*time.Millisecond)
+		if par.conn != nil {
+			par.conn.CloseWithError(0, "") // normally closed by the client's CONNECTION_CLOSE already
+		}
+		time.Sleep(3 * time.Second) // closing / draining periods
+		if !gotTicket {
+			u.Class("early:no-ticket")
+		}
+		mark = w.Router.ArmAll(c.Faults, c.Loss, bos)
+	}
+	traceOf := func() any {
+		tr := w.Router.Trace(mark + 400)
+		return tr[min(mark, len(tr)):]
+	}
+	// what the 0-RTT dimension exercised (counted for every outcome)
+	used0RTT := false
+	defer func() {
+		if !c.Early || mark == 0 {
+			return
+		}
+		if used0RTT {
+			u.Class("early:0rtt-used")
+		}
+		demand := 0
+		for _, s := range c.Streams {
+			if s.Init == "c" {
+				if s.CancelAt > 0 {
+					demand += s.CancelAt
+				} else {
+					demand += s.Size
+				}
+			}
+		}
+		zeroRTTBytes, flightLost := 0, false
+		has := func(cls []string, k string) bool {
+			for _, x := range cls {
+				if x == k {
+					return true
+				}
+			}
+			return false
+		}
+		tr := w.Router.Trace(1 << 30)
+		for _, r := range tr[min(mark, len(tr)):] {
+			if r.Forged {
+				continue
+			}
+			if r.Dir == "c2s" && has(r.Class, "0rtt") {
+				zeroRTTBytes += r.Len
+			}
+			if r.Dir == "s2c" && (has(r.Class, "initial") || has(r.Class, "handshake")) {
+				switch {
+				case r.Fate == "dropped" || r.Fate == "lost" || r.Fate == "blackout" || strings.HasPrefix(r.Fate, "flipped") || strings.HasPrefix(r.Fate, "truncated"):
+					flightLost = true
+				}
+			}
+		}
+		// the initial congestion window is 32 packets of 1280 bytes: more was asked for, and the 0-RTT packets filled it
+		beyond := demand > 34*1280 && zeroRTTBytes >= 26*1280
+		if zeroRTTBytes > 0 {
+			u.Class("early:0rtt-on-wire")
+		}
+		if beyond {
+			u.Class("early:data-beyond-window")
+		}
+		if flightLost {
+			u.Class("early:handshake-flight-lost")
+		}
+		if beyond && flightLost {
+			u.Class("early:beyond-window+flight-lost")
+		}
+	}()
+
+	type dialRes struct {
+		conn *quic.Conn
+		err  error
+		at   time.Duration
+	}
+	dialCh := make(chan dialRes, 1)
+	go func() {
+		conn, err := dial(c.Early)
+		dialCh <- dialRes{conn, err, w.Router.Now()}
+	}()
 	accCh := make(chan accRes, 1)
 	go func() {
 		conn, err := ln.Accept(ctx)
@@ -428,7 +605,7 @@ func runCase(c Case, u *vf.Unit, trace *any) *vf.Verdict {
 	}()
 	dr := <-dialCh
 	finish := func(v *vf.Verdict) *vf.Verdict {
-		*trace = w.Router.Trace(400)
+		*trace = traceOf()
 		return v
 	}
 	if dr.err != nil {
@@ -440,16 +617,6 @@ func runCase(c Case, u *vf.Unit, trace *any) *vf.Verdict {
 		return finish(judgeFailure(c, w, "dial", dr.err, dr.at, hsIdle, idle, true, u))
 	}
 	cconn := dr.conn
-	ar := <-accCh
-	if ar.err != nil {
-		cconn.CloseWithError(0, "")
-		if wire {
-			return finish(wireVerdict())
-		}
-		return finish(judgeFailure(c, w, "accept", ar.err, w.Router.Now(), hsIdle, idle, true, u))
-	}
-	sconn := ar.conn
-
 	var wg sync.WaitGroup
 	side := func(me *quic.Conn, mine string) {
 		// open my streams in order, accept the peer's in order
@@ -581,7 +748,55 @@ func runCase(c Case, u *vf.Unit, trace *any) *vf.Verdict {
 			}()
 		}
 	}
-	side(cconn, "c")
+	var ar accRes
+	if c.Early {
+		// the client's part of the scenario starts before the handshake has completed
+		side(cconn, "c")
+		select {
+		case ar = <-accCh:
+		case <-cconn.Context().Done():
+			// the client gave up before the server's handshake completed
+			// Accept has not returned: the server's handshake never completed, so the server was subject to its
+			// handshake idle timeout whatever the client's view of the handshake is (with 0-RTT the client may
+			// have completed it and run into its own, longer idle timeout talking to a server that gave up)
+			cerr, at, hs := context.Cause(cconn.Context()), w.Router.Now(), true
+			used0RTT = cconn.ConnectionState().Used0RTT
+			cancel()
+			if r := <-accCh; r.conn != nil {
+				r.conn.CloseWithError(0, "")
+			}
+			wg.Wait()
+			if wire {
+				return finish(wireVerdict())
+			}
+			if o.verdict != nil {
+				return finish(o.verdict)
+			}
+			v := judgeFailure(c, w, "client", cerr, at, hsIdle, idle, hs, u)
+			if v != nil && v.Sig == sigStallTimeout {
+				if kind, why := earlyStallKind(w, mark, hsIdle); kind != "" {
+					v.Sig, v.Detail = kind, why+"; "+v.Detail
+				}
+			}
+			return finish(v)
+		}
+	} else {
+		ar = <-accCh
+	}
+	if ar.err != nil {
+		at := w.Router.Now()
+		cconn.CloseWithError(0, "")
+		cancel()
+		wg.Wait()
+		if wire {
+			return finish(wireVerdict())
+		}
+		return finish(judgeFailure(c, w, "accept", ar.err, at, hsIdle, idle, true, u))
+	}
+	sconn := ar.conn
+	if !c.Early {
+		side(cconn, "c")
+	}
 	side(sconn, "s")
 
 	// Streams the acceptor never learns about (NoClose + size 0) cannot be waited for: the generator always
@@ -620,6 +835,7 @@ func runCase(c Case, u *vf.Unit, trace *any) *vf.Verdict {
 	}
 	cerr, serr := context.Cause(cconn.Context()), context.Cause(sconn.Context())
 	endAt := w.Router.Now()
+	used0RTT = cconn.ConnectionState().Used0RTT
 	if cerr == nil && serr == nil {
 		aliveUntil = endAt
 	}
@@ -627,7 +843,7 @@ func runCase(c Case, u *vf.Unit, trace *any) *vf.Verdict {
 	sconn.CloseWithError(0, "done")
 	cancel()
 	wg.Wait()
-	*trace = w.Router.Trace(400)
+	*trace = traceOf()
 
 	if wire {
 		wireClasses(w, u)
@@ -857,10 +1073,97 @@ func judgeFailure(c Case, w *sim.World, who string, err error, at time.Duration,
 	// anything with a dead stretch >= limit/3 is accepted as justified, less is a stall.
 	dead := w.Router.DeadStretch(at)
 	if dead < limit/3 {
-		return vf.Bad("C01/liveness/stall-then-timeout", "%s reports %v at %v, but the longest stretch during which the network delivered nothing intact in a direction while losing datagrams was only %v (timeout %v): transfers stalled although the path was alive; faults applied: %v", who, err, at, dead, limit, w.Router.AppliedFaults())
+		return vf.Bad(sigStallTimeout, "%s reports %v at %v, but the longest stretch during which the network delivered nothing intact in a direction while losing datagrams was only %v (timeout %v): transfers stalled although the path was alive; faults applied: %v", who, err, at, dead, limit, w.Router.AppliedFaults())
 	}
 	u.Class("justified-timeout")
 	return nil
+}
+
+const (
+	sigStallTimeout = "C01/liveness/stall-then-timeout"
+	// A 0-RTT handshake that stalled on a living path although the server's Finished had reached the client: the client
+	// never sent its own Finished (a Handshake packet with a CRYPTO frame). The two kinds have different causes:
+	// with 0-RTT packets still unacknowledged the client may be congestion limited (its Finished waits for a window
+	// that only acknowledgements or a probe timeout can open); with everything acknowledged nothing at all holds it back.
+	sigEarlyNothingInFlight = "C01/liveness/early-finished-unsent/nothing-in-flight"
+	sigEarly0RTTInFlight    = "C01/liveness/early-finished-unsent/0rtt-in-flight"
+	// The client did send its Finished, but later after the arrival of the server's Finished than the server's
+	// handshake idle timeout lasts: nobody is left to receive it (the anti-deadlock probe timeout is the only thing that
+	// lets a congestion-limited client send it, and its back-off is not reset before address validation).
+	sigEarlyFinishedLate = "C01/liveness/early-finished-late"
+)
+
+// earlyStallKind reads the decoded wire log of the measured connection (from log position mark).
+func earlyStallKind(w *sim.World, mark int, hsIdle time.Duration) (sig, why string) {
+	tr := w.Router.Trace(1 << 30)
+	sent := map[uint64]bool{} // ack-eliciting 0-RTT / 1-RTT packets of the client
+	var acked []refwire.AckRange
+	n0rtt, serverFin, clientFin := 0, false, false
+	var tServerFin, tClientFin time.Duration
+	for _, rec := range tr[min(mark, len(tr)):] {
+		if rec.Forged {
+			continue
+		}
+		pk, _ := rec.Pkts.([]*sim.Packet)
+		intact := len(rec.Dlv) > 0 && !rec.Mutated
+		for _, p := range pk {
+			hasCrypto := false
+			for _, f := range p.Frames {
+				if f.Name == refwire.NameCrypto {
+					hasCrypto = true
+				}
+			}
+			switch {
+			case rec.Dir == "c2s" && (p.Kind == "0rtt" || p.Kind == "1rtt"):
+				if p.Kind == "0rtt" {
+					n0rtt++
+				}
+				if p.AckEliciting {
+					sent[p.PN] = true
+				}
+			case rec.Dir == "c2s" && p.Kind == "handshake" && hasCrypto:
+				if !clientFin {
+					clientFin, tClientFin = true, rec.T
+				}
+			case rec.Dir == "s2c" && p.Kind == "handshake" && hasCrypto && intact:
+				if !serverFin || rec.Dlv[0] < tServerFin {
+					serverFin, tServerFin = true, rec.Dlv[0]
+				}
+			case rec.Dir == "s2c" && p.Kind == "1rtt" && intact:
+				for _, f := range p.Frames {
+					if f.Name == refwire.NameAck {
+						acked = append(acked, f.AckRanges...)
+					}
+				}
+			}
+		}
+	}
+	if n0rtt == 0 || !serverFin {
+		return "", ""
+	}
+	if clientFin {
+		if d := tClientFin - tServerFin; d >= hsIdle {
+			return sigEarlyFinishedLate, fmt.Sprintf("0-RTT handshake: the server's Handshake CRYPTO data reached the client at %v, the client's first Handshake packet with CRYPTO data (its Finished) left at %v, %v later - more than the server's handshake idle timeout (%v)", tServerFin, tClientFin, d, hsIdle)
+		}
+		return "", ""
+	}
+	unacked := 0
+	for pn := range sent {
+		ok := false
+		for _, rg := range acked {
+			if rg.Smallest <= pn && pn <= rg.Largest {
+				ok = true
+				break
+			}
+		}
+		if !ok {
+			unacked++
+		}
+	}
+	if unacked == 0 {
+		return sigEarlyNothingInFlight, fmt.Sprintf("0-RTT handshake: the server's Handshake CRYPTO data was delivered to the client, every one of the client's %d ack-eliciting 0-RTT/1-RTT packets was acknowledged in 1-RTT packets delivered to it, but the client never sent a Handshake packet with CRYPTO data (its Finished)", len(sent))
+	}
+	return sigEarly0RTTInFlight, fmt.Sprintf("0-RTT handshake: the server's Handshake CRYPTO data was delivered to the client, %d of the client's %d ack-eliciting 0-RTT/1-RTT packets were never acknowledged in a 1-RTT packet delivered to it, and the client never sent a Handshake packet with CRYPTO data (its Finished)", unacked, len(sent))
 }
 
 // longestSilence returns the longest interval up to 'until' during which one of the endpoints was sent
@@ -895,11 +1198,14 @@ func wireClasses(w *sim.World, u *vf.Unit) {
 	if o == nil {
 		return
 	}
-	var n1rtt, nAck, nKU, nStream, nMax int
+	var n1rtt, n0rtt, nAck, nKU, nStream, nMax int
 	for d := 0; d < 2; d++ {
 		for _, p := range o.Packets[d] {
 			if p.Kind == "1rtt" {
 				n1rtt++
+			}
+			if p.Kind == "0rtt" {
+				n0rtt++ // opened by the observer with the early traffic secret it derived from the resumption PSK
 			}
 			if p.KeyGen > 0 {
 				nKU++
@@ -917,6 +1223,7 @@ func wireClasses(w *sim.World, u *vf.Unit) {
 		}
 	}
 	u.ClassN("packets-1rtt", n1rtt)
+	u.ClassN("packets-0rtt", n0rtt)
 	u.ClassN("frames-ack", nAck)
 	u.ClassN("frames-stream", nStream)
 	u.ClassN("frames-max", nMax)
